@@ -566,6 +566,8 @@ def runNodeUpdate : Nat → Root → Id → Except Panic Root
             match disposeChildren fuel r cur with
             | .error e => .error e
             | .ok r =>
+              -- one of the cleanups may have disposed this node (repair D22): nothing left to update
+              if r.get? cur = none then .ok r else
               let prevCur := r.current
               let prevTr := r.tracker
               match runClosure fuel { r with current := some cur, tracker := some [] } cl with
